@@ -185,7 +185,10 @@ class Report(object):
                                     "replay": replay}), f, indent=1, sort_keys=True)
             print("VIOLATION property=%s replay=%s" % (self.prop, p))
             print("  clause=%s: %s" % (clause, detail[:400]))
-        print("[%s] %d violation(s) in %d distinct replay(s)" % (self.prop, len(self.violations), len(seen)))
+        by = {}
+        for v in self.violations:
+            by[v[0]] = by.get(v[0], 0) + 1
+        print("[%s] %d violation(s) in %d distinct replay(s); by clause: %s" % (self.prop, len(self.violations), len(seen), by))
         return 1
 
 
